@@ -339,6 +339,20 @@ func genLayout(t *rapid.T, nested bool) Layout {
 			l.Extra = append(l.Extra, pre+"/"+rapid.SampledFrom(tails).Draw(t, "lookalikeTail"))
 		}
 	}
+	if oneIn(t, 4, "shortUnderRoot") {
+		// a file directly below a remote root, only a few bytes longer than the root itself
+		// (an assembly stub next to src/, say): it lies under no source tree
+		var roots []string
+		if l.GorootRemote != "" {
+			roots = append(roots, l.GorootRemote)
+		}
+		for _, g := range l.Gopaths {
+			roots = append(roots, g.Remote)
+		}
+		if len(roots) > 0 {
+			l.Extra = append(l.Extra, rapid.SampledFrom(roots).Draw(t, "shortRoot")+rapid.SampledFrom([]string{"/z.s", "/a.go", "x.s", "/s.c", ".go"}).Draw(t, "shortTail"))
+		}
+	}
 	l.TestMain = oneIn(t, 4, "testmain")
 	l.TestMainAt = rapid.IntRange(0, 3).Draw(t, "testmainAt")
 	return l
